@@ -389,6 +389,8 @@ func init() {
 			c.min("R-KEYMATCH/K2", 1)
 			c.ruleWriteDirtyBatch()
 			c.min("R-ORDER/batch", 3)
+			c.ruleRootRecv()
+			c.min("R-ROOTRECV", 3)
 			c.ruleThresh("pkg/trie/inmemory")
 			c.min("R-THRESH", 7)
 			c.ruleValueCarry(ownExempt)
